@@ -310,14 +310,17 @@ inductive Wrapped where
   deriving DecidableEq, Repr
 
 inductive Reason where
-  | path | wrapper | workdir | newlines | env | separator
+  | path | wrapper | workdir | newlines | env | envNewlines | separator
   deriving DecidableEq, Repr
 
 def reasons (r : ExeReq) : List Reason :=
   (if r.extraPaths then [.path] else []) ++ (if r.exeWrapper then [.wrapper] else []) ++
   (if r.workdir then [.workdir] else []) ++
   (if r.cmdArgs.any (·.contains '\n') then [.newlines] else []) ++
-  (if r.envVars ≠ [] then [.env] else []) ++ (if !r.sepIsSpace then [.separator] else [])
+  (if r.envVars ≠ [] then
+     [.env] ++ (if r.envVars.any (·.2.contains '\n') then [.envNewlines] else [])
+   else []) ++
+  (if !r.sepIsSpace then [.separator] else [])
 
 def asMesonExeCmdline (r : ExeReq) : Wrapped :=
   let rs := reasons r
@@ -422,26 +425,35 @@ def joinNl : List Str → Str
   | [a] => a
   | a :: b :: rest => a ++ '\n' :: joinNl (b :: rest)
 
+def sIn : Str := ['i', 'n']
+def sOut : Str := ['o', 'u', 't']
+def sInNewline : Str := ['i', 'n', '_', 'n', 'e', 'w', 'l', 'i', 'n', 'e']
+
+/-- expansion of the tokens of a rule binding; `look` resolves a variable reference -/
+def evalToks (look : Str → Except NErr Str) (toks : List NTok) : Except NErr Str := do
+  let parts ← toks.mapM (fun t => match t with
+    | .lit c => pure [c]
+    | .var v => look v)
+  pure parts.flatten
+
 /-- `EdgeEnv::LookupVariable`: `in`/`in_newline`/`out`, then the statement's bindings, then the
 rule's bindings evaluated in this same environment (depth bounded by `fuel`; Ninja reports a cycle),
 then the enclosing scope, which for generated files defines nothing we use: empty. -/
 def edgeLookup (e : Edge) : Nat → Str → Except NErr Str
   | 0, _ => .error .cycle
   | fuel + 1, name =>
-    if name = ['i', 'n'] then .ok (joinSp (e.ins.map ninjaShellEscape))
-    else if name = "in_newline".toList then .ok (joinNl (e.ins.map ninjaShellEscape))
-    else if name = ['o', 'u', 't'] then .ok (joinSp (e.outs.map ninjaShellEscape))
+    if name = sIn then .ok (joinSp (e.ins.map ninjaShellEscape))
+    else if name = sInNewline then .ok (joinNl (e.ins.map ninjaShellEscape))
+    else if name = sOut then .ok (joinSp (e.outs.map ninjaShellEscape))
     else match assocGet e.vars name with
       | some v => .ok v
       | none =>
         match assocGet e.ruleBindings name with
         | none => .ok []
-        | some raw => do
-          let toks ← nLex .norm raw
-          let parts ← toks.mapM (fun t => match t with
-            | .lit c => pure [c]
-            | .var v => edgeLookup e fuel v)
-          pure parts.flatten
+        | some raw =>
+          match nLex .norm raw with
+          | .error er => .error er
+          | .ok toks => evalToks (fun v => edgeLookup e fuel v) toks
 
 /-- the value of a rule binding (`command`, `rspfile_content`, …) for this build statement -/
 def edgeBinding (e : Edge) (name : Str) : Except NErr Str := edgeLookup e 16 name
